@@ -211,6 +211,13 @@ def r3_lock_gate(ctx):
             bad = [x for x in latches + val if x in after]
             r.check(not bad, "locked/%s/%s" % (label, clabel), "a %s-stake input on %s cannot pass (Err(CoinLocked))" % (label, clabel),
                     "a %s-stake input on %s still reaches bb%s (validation/next input)" % (label, clabel, bad), body.where(start[0][0]))
+    # the other direction ("unlocked again once the stake has expired", and never locked without a stake): a coin that belongs to no stake is not refused
+    if a_new and a_old:
+        errs_ = q.err_blocks(body, "CoinLocked")
+        f = force(body, dict([(e, 0) for bi, e in a_new] + [(e, 0) for bi, e in a_old]))
+        after = f.reach_from(q.loop_entry(body, h, blocks))
+        bad = [x for x in errs_ if x in after]
+        r.check(not bad, "unstaked/passes", "an input that belongs to no stake is never refused as locked", "an input that belongs to neither a registered nor a new stake can still be refused with CoinLocked", body.where(a_new[0][0]))
     # gate before script validation
     for v in val:
         ok = all(body.dominates(bi, v) for bi, e in a_new)
